@@ -44,7 +44,7 @@ class File_get_uid:
 ghost("file_by_ct", ["opaque:Chunks", "str", "opaque:Handlers"], "opaque:File")
 ghost("valid_file", ["opaque:File"], "bool")
 ghost("normalized_of", ["opaque:File"], "opaque:Chunks")
-ghost("blob_id", ["opaque:Chunks"], "bytes")          # git blob hash of the joined chunks (BH)
+# blob_id(chunks) = BHb(b"".join(chunks)) is defined by the dulwich model (pyvc/models/dulwichmodels.py)
 ghost("same_handler", ["str", "str", "opaque:Handlers"], "bool")   # extension of name and content type select the same File class
 
 
